@@ -144,12 +144,22 @@ pub fn spec(id: &str) -> Option<Spec> {
             real: vec!["virtio_drivers::device::console::VirtIOConsole incl. embedded-io Read/BufRead/ReadReady/Write and fmt::Write", "VirtQueue"],
             stubbed: vec!["device: reference console (sim/src/devices/console.rs)", "platform: SimHal"],
         },
+        "C16" => Spec {
+            id: "C16",
+            level: "exploration",
+            rule: "seeded sequences of sends, receives and recycles on VirtIONetRaw (caller-owned buffers, non-blocking transmit/receive in any completion order) and VirtIONet (QUEUE_SIZE 8 managed buffers), frames of every length from 0 to the buffer size (boundary biased), device picks any posted buffer and burst size, with and without VERSION_1 (12- vs 10-byte header); non-trivial = a receive completed out of posting order (raw) or more than QUEUE_SIZE frames received and all buffers back with the device (managed)",
+            batches: vec![b("raw", scen::c16::raw_run, 6000, 150_000), b("managed", scen::c16::buf_run, 6000, 150_000)],
+            extras: vec![],
+            assumptions: vec!["MRG_RXBUF is offered in some runs but never accepted by the driver, so one buffer per frame"],
+            real: vec!["virtio_drivers::device::net::{VirtIONetRaw, VirtIONet, RxBuffer, TxBuffer}", "VirtQueue"],
+            stubbed: vec!["device: reference NIC (sim/src/devices/net.rs)", "platform: SimHal"],
+        },
         _ => return None,
     };
     Some(s)
 }
 
-pub const ALL: &[&str] = &["C01", "C02", "C03", "C04", "C05", "C06", "C10", "C14", "C15", "C19"];
+pub const ALL: &[&str] = &["C01", "C02", "C03", "C04", "C05", "C06", "C10", "C14", "C15", "C16", "C19"];
 
 pub fn find_batch(prop: &str, batch: &str) -> Option<fn()> {
     spec(prop)?.batches.iter().find(|b| b.name == batch).map(|b| b.f)
